@@ -305,3 +305,31 @@ func VerifH_C09_probe() {
 		}
 	}
 }
+
+// VerifH_C09_twoProbes: two proxies found by the same scanner one after the other (solver-chosen
+// addresses and ports): the first record still carries the first probe's address and port after
+// the second probe has been made (records are not shared between probes).
+func VerifH_C09_twoProbes() {
+	verifNow()
+	s := NewScanner(WithDialTimeout(time.Second), WithDataTimeout(time.Second))
+	var recs []*ScanResult
+	a := ndBytes("addr", 2)
+	ports := []uint16{ndU16("port0"), ndU16("port1")}
+	for k := 0; k < 2; k++ {
+		c09DialCalls, c09Connected, c09DialMode, c09DialLatency = 0, false, 0, 0
+		peer := &c09Conn{closedCh: make(chan struct{}), timeout: time.Second}
+		peer.chunks = [][]byte{{5, 0}}
+		peer.readModes = []int{0, 0, 0}
+		c09Peer = peer
+		res, err := s.Scan(context.Background(), &scan.Request{DstIP: net.IPv4(10, 1, 2, a[k]), DstPort: ports[k]})
+		verifAssert(err == nil && res != nil, "a server answering 05 00 was not reported")
+		if r, ok := res.(*ScanResult); ok {
+			recs = append(recs, r)
+		}
+	}
+	if len(recs) == 2 {
+		verifAssert(recs[0].IP == net.IPv4(10, 1, 2, a[0]).String() && recs[0].Port == ports[0], "the first record changed when the second proxy was found (shared record)")
+		verifAssert(recs[1].IP == net.IPv4(10, 1, 2, a[1]).String() && recs[1].Port == ports[1], "the second record does not carry its own probe's address and port")
+	}
+	verifCover("done")
+}
